@@ -127,6 +127,71 @@ def frame(ty, payload, rng, tform=None, lform=None, lendelta=0):
     return safe_varint(ty, tform) + safe_varint(ln, lform) + payload
 
 
+# ------------------------------------------------------------------ declared lengths >= 2^30 (builder bC12)
+# The length field of a frame header is a varint of up to 62 bits; nothing but the end of the stream bounds it.  These lines
+# declare 2^30-1 (largest 4-byte form), 2^30, 2^32 and 2^62-1 (and a few more in the thorough tier), deliver three payload
+# bytes and end the stream: the answer must be the truncation error (or, with the stream left open, a wait), never an
+# allocation of the declared size, an arithmetic overflow (`2 + len`, harness built with overflow checks) or a wrapped length.
+HUGE_LENS = ["bfffffff", "c000000040000000", "c000000100000000", "ffffffffffffffff"]
+HUGE_LENS_MORE = ["c0000000ffffffff", "c000000080000000", "c0000001000000ff", "e000000000000000", "fffffffffffffffe"]
+_RESERVED_BIG = 0x1f * ((2**62 - 1 - 0x21) // 0x1f) + 0x21          # the largest reserved ("grease") frame type
+HUGE_TYPES = ["00", "01", "04", "07", "03", "0d", "21", "4021", "%016x" % (_RESERVED_BIG | (3 << 62))]
+HUGE_PAYLOAD = [0xaa, 0xbb, 0xcc]
+
+
+def huge_lines(big):
+    """deterministic (no rng): the same lines in every run, also written to corpus/C02/huge_lengths.txt"""
+    out = []
+    k = 0
+    for ty in HUGE_TYPES:
+        tb = list(bytes.fromhex(ty))
+        for lh in HUGE_LENS + (HUGE_LENS_MORE if big else []):
+            lb = list(bytes.fromhex(lh))
+            hdr = tb + lb
+            bs = hdr + HUGE_PAYLOAD
+            mid = len(tb) + len(lb) // 2
+            chunkings = [[bs], [bs[:mid], bs[mid:]], [[b] for b in bs], [hdr, HUGE_PAYLOAD], [bs[:mid], bs[mid:len(hdr)], HUGE_PAYLOAD]]
+            out.append("frame dec " + hx(bs))
+            out.append("fs loop " + script([bs], "fin"))
+            if big:
+                out.append("frame dec " + hx(hdr))
+                out.append("frame dec " + hx(bs[:mid]))
+                for parts in chunkings:
+                    for ending in ("fin", "open"):
+                        out.append("fs loop " + script(parts, ending))
+                    out.append("fs loop " + script(parts, "reset"))
+            else:
+                # quick: one cut chunking per (type, length) in rotation - the cut inside the length field comes round for
+                # every type - and the open ending on every other one
+                parts = chunkings[1 + k % 4]
+                out.append("fs loop " + script(parts, "fin"))
+                if k % 2 == 0:
+                    out.append("fs loop " + script(chunkings[1 + (k + 1) % 4], "open"))
+            # both call languages: n/d on a bare FrameStream, r/s on a real client::RequestStream
+            if big or (ty in ("00", "01", "04", "21") and lh in ("c000000100000000", "ffffffffffffffff")):
+                parts = chunkings[1 + k % 4] if not big else chunkings[4]
+                nd = "n" + "d" * (len(parts) + 2) + "nn"
+                out.append("fs calls %s %s" % (script([bs], "fin"), nd))
+                out.append("fs calls %s %s" % (script(parts, "fin"), nd))
+                n = len(parts) + 3
+                out.append("fs calls %s %s" % (script(parts, "fin"), "r" * n))
+                out.append("fs calls %s %s" % (script(parts, "fin"), "r" + "s" + "r" * (n - 1)))
+                if big:
+                    out.append("fs calls %s %s" % (script(parts, "open"), nd))
+                    out.append("fs calls %s %s" % (script(parts, "open"), "s" + "r" * n))
+            k += 1
+    seen, res = set(), []
+    for l in out:
+        if l not in seen:
+            seen.add(l)
+            res.append(l)
+    return res
+
+
+HUGE = set(huge_lines(True)) | set(huge_lines(False))
+HUGE |= {" ".join([l.split(" ")[0], l.split(" ")[1] + "S"] + l.split(" ")[2:]) for l in HUGE}
+
+
 class C02(Prop):
     id = "C02"
     modules = ["H3.Props.C02", "H3.Lemmas.GenAgreeFrame", "H3.Lemmas.GenAgreeReq", "H3.Lemmas.GenAgreeCtl"]
@@ -309,6 +374,9 @@ class C02(Prop):
                             for ending in ("fin", "open"):
                                 add("fs loop " + script(parts, ending))
                         add("fs calls %s %s" % (script(cuts_random(bs, rng), "fin"), "nnn"))
+        # 6. declared lengths of 2^30-1 .. 2^62-1, three payload bytes, then the end of the stream (builder bC12)
+        for l in huge_lines(big):
+            add(l)
         # spread the long lines evenly over the list (the runs are split into contiguous parts, one per worker)
         longs = [l for l in L if len(l) > 4000]
         if longs:
@@ -332,32 +400,93 @@ class C02(Prop):
             w[1] += "S"
         return " ".join(w)
 
+    @staticmethod
+    def judge_query(l, o):
+        """the `fs judge` query for an `fs` answer sequence, None for lines that carry no judge verdict"""
+        w = l.split()
+        if len(w) < 3 or w[0] != "fs" or o in ("bad-op", "hang", "abort"):
+            return None
+        strict = "1" if w[1].endswith("S") else "0"
+        op = w[1].rstrip("S")
+        if op == "loop" and len(w) == 3:
+            return "fs judge %s loop %s @@ %s" % (strict, w[2], o)
+        if op == "calls" and len(w) == 4 and w[3] and set(w[3]) <= set("rs"):
+            return None      # calls on a real RequestStream with split(): judged by the driver's own spec half (reqView)
+        if op == "calls" and len(w) == 4:
+            return "fs judge %s calls %s %s @@ %s" % (strict, w[2], w[3], o)
+        return None
+
     def project_all(self, lines, impls):
         """Every `fs` answer sequence gets the verdict of the chunk-blind Lean judge in front (`ok` / `BAD@<i>`);
         the driver prints the verdict on the model's own answers the same way."""
         res = list(impls)
         idx, qs = [], []
         for k, (l, o) in enumerate(zip(lines, impls)):
-            w = l.split()
-            if len(w) < 3 or w[0] != "fs" or o in ("bad-op", "hang", "abort"):
-                continue
-            strict = "1" if w[1].endswith("S") else "0"
-            op = w[1].rstrip("S")
-            if op == "loop" and len(w) == 3:
-                qs.append("fs judge %s loop %s @@ %s" % (strict, w[2], o))
-            elif op == "calls" and len(w) == 4 and w[3] and set(w[3]) <= set("rs"):
-                continue     # calls on a real RequestStream with split(): judged by the driver's own spec half (reqView)
-            elif op == "calls" and len(w) == 4:
-                qs.append("fs judge %s calls %s %s @@ %s" % (strict, w[2], w[3], o))
-            else:
-                continue
-            idx.append(k)
+            q = self.judge_query(l, o)
+            if q is not None:
+                idx.append(k)
+                qs.append(q)
         for k, v in zip(idx, judge(qs)):
             res[k] = (v + " " + impls[k]).strip()
         return res
 
     def project(self, line, impl):
         return self.project_all([line], [impl])[0]
+
+    # -------------------------------------------------------------- reading R-02s made visible (builder bC12)
+
+    LENIENT_ALTS = (("E:proto:malformed", "E:proto:settings(*)"), ("err malformed", "err settings(*)"))
+
+    def extra(self, tier, rng, ctx):
+        """ONE note per run: how many lines of THIS run are judged with the lenient alternative of reading R-02s, on how many
+        of them the code's answer passes only because of it (the same answers re-judged by the strict ops `decS` / `loopS` /
+        `callsS` of the driver and the strict judge), and the shortest such line."""
+        import vlib
+        lines, impl, spec = ctx["lines"], ctx["impl"], ctx["spec"]
+        total = len(lines)
+        if not total:
+            return []
+        if STRICT_SETTINGS:
+            bad = [i for i in range(total) if not vlib.spec_match(spec[i], impl[i])
+                   and ("settings(" in impl[i] or "H3_SETTINGS_ERROR" in impl[i])]
+            wit = min((lines[i] for i in bad), key=lambda l: (len(l), l)) if bad else "-"
+            return [("note", "R-02s judged STRICTLY in this run (VERIF_C02_STRICT_SETTINGS=1): %d of %d lines fail it (SETTINGS payload "
+                             "ends inside an entry; the code answers H3_SETTINGS_ERROR, the strict reading demands H3_FRAME_ERROR; the "
+                             "default run accepts both codes on them; witness `%s`)" % (len(bad), total, wit), None)]
+
+        def alts(sp):
+            a = [" ".join(x.split()) for x in sp.split(" || ")]
+            return any(any(x.endswith(m) for x in a) and any(x.endswith(s_) for x in a) for m, s_ in self.LENIENT_ALTS)
+        both = [i for i in range(total) if alts(spec[i])]
+        # candidates for a verdict that depends on the reading: the spec string offers both codes, or the code answered a SETTINGS error
+        cand = sorted(set(both) | {i for i in range(total) if "settings(" in impl[i] or "H3_SETTINGS_ERROR" in impl[i]})
+        cand = [i for i in cand if lines[i].split(" ")[0] in ("frame", "fs") and lines[i].split(" ")[1] in ("dec", "loop", "calls")]
+        raws = []
+        for i in cand:        # the raw answer: the projection put the lenient judge's verdict in front of the judged `fs` lines
+            o = impl[i]
+            if self.judge_query(lines[i], "x") is not None and o.split(" ")[0].startswith(("ok", "BAD")):
+                o = " ".join(o.split(" ")[1:])
+            raws.append(o)
+        sl = [self.strict_line(lines[i]) for i in cand]
+        try:
+            simpl = self.project_all(sl, raws)
+            _, sspec = vlib.run_model(sl)
+        except Exception as e:      # never silent: without the strict re-judgement the count cannot be given
+            return [("broken", "R-02s note: strict re-judgement of %d lines failed (%s)" % (len(sl), e), None)]
+        fail = [cand[j] for j in range(len(cand)) if not vlib.spec_match(sspec[j], simpl[j])]
+        failset = set(fail)
+        k_in_both = sum(1 for i in both if i in failset)
+        overlap = sum(1 for i in both if i not in failset and ("settings(" in impl[i]))
+        beyond = len(fail) - k_in_both
+        wit = min((lines[i] for i in fail), key=lambda l: (len(l), l)) if fail else "-"
+        self.r02s_counts = {"lines": total, "both_alternatives": len(both), "strict_violation": len(fail),
+                            "strict_violation_among_both": k_in_both, "overlap_both_codes_demanded": overlap}
+        return [("note", "R-02s undecided: %d of %d lines accept E:proto:malformed || E:proto:settings(*) (SETTINGS payload ends inside an "
+                         "entry; the code answers H3_SETTINGS_ERROR on %d of them where the strict reading demands H3_FRAME_ERROR only, "
+                         "and on %d more the strict reading itself accepts both codes - a reserved or repeated identifier was received "
+                         "in full, R-02s overlap; %d further lines, `fs calls` histories judged by `ok **` / `E:conn:*`, pass only under "
+                         "the lenient judge: %d lines in all that VERIF_C02_STRICT_SETTINGS=1 shows as VIOLATION; witness `%s`)"
+                         % (len(both), total, k_in_both, overlap, beyond, len(fail), wit), None)]
 
     def klass_raw(self, line, raw):
         return self.klass(line, raw)
@@ -436,6 +565,10 @@ class C02(Prop):
         add("fs calls c0001aa,f rsrsr")      # the halves cannot be split again: bad-op on both sides
 
     def klass(self, line, impl):
+        k = self.klass0(line, impl)
+        return k + "/huge" if line in HUGE else k          # declared length >= 2^30-1 (builder bC12): a class of their own
+
+    def klass0(self, line, impl):
         w = line.split()
         if w[0] == "fs" and len(w) > 3 and w[1] == "calls" and w[3] and set(w[3]) <= set("rs"):
             last = impl.split(" ")[-1] if impl else "empty"
@@ -508,6 +641,16 @@ C02.rule = C02.rule.replace("; non-trivial = ", "; `fs calls` over r (poll_recv_
 C02.level_text += ("; split() is the identity on the frame-layer state (buffer, end-of-stream flag, expected memo, remaining_data): "
                    "call sequences with splits anywhere answer like the same sequences without them, also for the request-body "
                    "reader poll_recv_data, whose frame-layer answers stay a prefix of the reference automaton's tokens")
+C02.rule = C02.rule.replace("; non-trivial = ", "; (6) declared lengths of 2^30-1 (largest 4-byte form), 2^30, 2^32, 2^62-1 (thorough also "
+                            "2^32-1, 2^31, 2^32+255, 2^61, 2^62-2) with three payload bytes, for DATA, HEADERS, SETTINGS, GOAWAY, CANCEL_PUSH, "
+                            "MAX_PUSH_ID, unknown 0x21 in one- and two-byte form and the largest reserved type: `frame dec`, `fs loop` whole / "
+                            "cut inside the length field / after the header / byte by byte x fin/open(/reset), `fs calls` in both call "
+                            "languages (classes with the suffix /huge; also corpus/C02/huge_lengths.txt); the NOTE line `R-02s undecided` "
+                            "counts, from this run's answers re-judged by the strict ops, the lines whose verdict depends on reading R-02s"
+                            "; non-trivial = ")
+C02.level_text += ("; whenever Frame::decode answers Incomplete(m), m <= buffered + 1 or m < 2^62 + 2, so `remaining + 1` and `2 + len` "
+                   "stay inside a 64-bit usize (C02_incomplete_no_wrap)")
+C02.assumptions = C02.assumptions + ["usize is 64 bits wide (`len as usize` keeps a 62-bit declared length; on a 32-bit target it would truncate)"]
 C02.level_note += ("; split() is reached through a real client::RequestStream (send_request over a one-stream scripted transport), "
                    "the only public way to FrameStream::split")
 
